@@ -32,17 +32,19 @@ Section C07.
     split; [|reflexivity]. destruct policy as [|[|[|p]]]; reflexivity.
   Qed.
 
-  (** the usage shown is the rejecting command's own: its path and its spec *)
+  (** the usage shown is the rejecting command's own: its path, its spec, and the COMMAND marker
+      when it has sub-commands, then its short description; the tables follow *)
   Theorem C07_usage_of_rejecting_command :
     forall c i path text,
       print_help parse_float getenv path c i false = (text, None) ->
-      exists rest, text = (lit "Usage: " ++ concat_str [c_space] path
-                               ++ (match trim_space (i_spec i) with [] => [] | s => c_space :: s end)
-                               ++ (match c_subs c with [] => [] | _ => lit " COMMAND [arg...]" end)) :: rest.
+      exists table,
+        text = ((lit "Usage: " ++ concat_str [c_space] path
+                     ++ (match trim_space (i_spec i) with [] => [] | _ => c_space :: trim_space (i_spec i) end)
+                     ++ (if match c_subs c with [] => false | _ => true end then lit " COMMAND [arg...]" else []))
+                  :: match c_desc c with [] => [] | _ => split_nl (c_desc c) end) ++ table.
   Proof.
     intros c i path text. unfold print_help, help_header.
-    destruct (init_children _ _ _); intros [= <-]. eexists. cbn [List.app].
-    destruct (c_subs c); reflexivity.
+    destruct (init_children _ _ _); intros [= <-]. eexists. reflexivity.
   Qed.
 
   (** an accepted invocation ends as the callbacks decide; with well-behaved callbacks it
